@@ -16,6 +16,7 @@ return; or anywhere inside an expression if the helper body is a single `return 
 from __future__ import annotations
 
 import ast
+import re
 import copy
 from pathlib import Path
 from typing import Dict, List, Optional, Set, Tuple
@@ -282,6 +283,7 @@ class Inliner:
         self.known = known
         self.helpers: Dict[str, object] = {}  # qual -> FuncInfo of inlinable unknown helpers
         self.gen_helpers: Dict[str, object] = {}  # unknown private generator functions (inlined into `for` loops over them)
+        self.touched: Set[str] = set()  # functions that received inlined code
         self.log: List[str] = []
         self.inlined_count: Dict[str, int] = {}
         for q, fi in program.functions.items():
@@ -419,6 +421,7 @@ class Inliner:
         before = {n.name for n in fi.node.body if isinstance(n, ast.FunctionDef)}
         fi.node.body = self._block(fi, fi.node.body)
         if self._count:
+            self.touched.add(fi.qual)
             ast.fix_missing_locations(fi.node)
             if {n.name for n in ast.walk(fi.node) if isinstance(n, ast.FunctionDef) and n is not fi.node} - before - set(fi.nested):
                 self._reindex_nested(fi)
@@ -1035,6 +1038,145 @@ def _scalar_replacement(program, known: Set[str]) -> List[str]:
     return log
 
 
+_INLINED_TEMP = re.compile(r"__[A-Za-z_]\w*?\d+$")
+
+
+def _simplify_inlined(program, touched: Set[str]) -> List[str]:
+    """Clean-up of functions that received inlined helper bodies, so that the result has the shape of hand-written code:
+      1. conditions decided by a constant argument (`a if True else b`, `if False: ..`) are folded;
+      2. a dict temp of an inlined helper that is only filled by `t[k] = v` and then handed to one `x.update(t)` is
+         written into x directly (`x[k] = v`);
+      3. `for a, b in {k: E(k) for k in S}.items()` (the comprehension held in a local used nowhere else) is the loop
+         `for a in S: b = E(a)`."""
+    log: List[str] = []
+    for q in sorted(touched):
+        fi = program.functions.get(q)
+        if fi is None or not isinstance(fi.node, (ast.FunctionDef, ast.AsyncFunctionDef)):
+            continue
+        changed = []
+
+        # 1. constant folding
+        class Fold(ast.NodeTransformer):
+            n = 0
+
+            def visit_IfExp(self, node):
+                self.generic_visit(node)
+                if isinstance(node.test, ast.Constant):
+                    Fold.n += 1
+                    return node.body if node.test.value else node.orelse
+                return node
+
+            def visit_If(self, node):
+                self.generic_visit(node)
+                if isinstance(node.test, ast.Constant):
+                    Fold.n += 1
+                    return (node.body if node.test.value else node.orelse) or [ast.copy_location(ast.Pass(), node)]
+                return node
+
+            def visit_UnaryOp(self, node):
+                self.generic_visit(node)
+                if isinstance(node.op, ast.Not) and isinstance(node.operand, ast.Constant) and isinstance(node.operand.value, bool):
+                    Fold.n += 1
+                    return ast.copy_location(ast.Constant(value=not node.operand.value), node)
+                return node
+
+            def visit_FunctionDef(self, node):
+                return self.generic_visit(node) if node is fi.node else node
+
+        Fold().visit(fi.node)
+        if Fold.n:
+            changed.append("constant conditions folded")
+
+        def uses(name):
+            return [n for n in _walk_local(fi.node) if isinstance(n, ast.Name) and n.id == name]
+
+        parents = {}
+
+        def reparent():
+            parents.clear()
+            for p_ in ast.walk(fi.node):
+                for ch in ast.iter_child_nodes(p_):
+                    parents[id(ch)] = p_
+
+        # 2. dict temp + single update
+        reparent()
+        for st in list(_walk_local(fi.node)):
+            if not (isinstance(st, (ast.Assign, ast.AnnAssign)) and st.value is not None):
+                continue
+            tg = st.targets[0] if isinstance(st, ast.Assign) and len(st.targets) == 1 else st.target if isinstance(st, ast.AnnAssign) else None
+            if not isinstance(tg, ast.Name) or not _INLINED_TEMP.search(tg.id):
+                continue
+            if not (isinstance(st.value, ast.Dict) and not st.value.keys or ast.unparse(st.value) == "dict()"):
+                continue
+            t = tg.id
+            us = [u for u in uses(t) if u is not tg]
+            stores, updates, other = [], [], []
+            for u in us:
+                up = parents.get(id(u))
+                up2 = parents.get(id(up))
+                if isinstance(up, ast.Subscript) and up.value is u and isinstance(up.ctx, ast.Store) and isinstance(up2, ast.Assign) and len(up2.targets) == 1:
+                    stores.append((up, up2))
+                elif isinstance(up, ast.Call) and u in up.args and len(up.args) == 1 and not up.keywords and isinstance(up.func, ast.Attribute) and up.func.attr == "update" and isinstance(up2, ast.Expr):
+                    updates.append((up, up2))
+                else:
+                    other.append(u)
+            if other or len(updates) != 1 or not stores:
+                continue
+            dest = updates[0][0].func.value
+            for sub, asg in stores:
+                sub.value = copy.deepcopy(dest)
+            # drop the initialisation and the update statement
+            for dead in (st, updates[0][1]):
+                owner = parents.get(id(dead))
+                for fld in ("body", "orelse", "finalbody"):
+                    b = getattr(owner, fld, None)
+                    if isinstance(b, list) and dead in b:
+                        b[b.index(dead)] = ast.copy_location(ast.Pass(), dead)
+            changed.append(f"temporary dict {t} written into {ast.unparse(dest)} directly")
+            reparent()
+
+        # 3. loop over the items of a one-use dict comprehension
+        reparent()
+        for loop in [n for n in _walk_local(fi.node) if isinstance(n, ast.For)]:
+            it = loop.iter
+            if not (isinstance(it, ast.Call) and isinstance(it.func, ast.Attribute) and it.func.attr == "items" and not it.args and isinstance(it.func.value, ast.Name)):
+                continue
+            d = it.func.value.id
+            defs = [n for n in _walk_local(fi.node) if isinstance(n, ast.Assign) and len(n.targets) == 1 and isinstance(n.targets[0], ast.Name) and n.targets[0].id == d]
+            if len(defs) != 1 or not isinstance(defs[0].value, ast.DictComp) or len([u for u in uses(d)]) != 2:
+                continue
+            comp = defs[0].value
+            if len(comp.generators) != 1 or comp.generators[0].ifs or not isinstance(comp.generators[0].target, ast.Name) or ast.unparse(comp.key) != comp.generators[0].target.id:
+                continue
+            if not (isinstance(loop.target, ast.Tuple) and len(loop.target.elts) == 2 and all(isinstance(x, ast.Name) for x in loop.target.elts)):
+                continue
+            kv, vv = loop.target.elts[0].id, loop.target.elts[1].id
+            cv = comp.generators[0].target.id
+
+            class Ren(ast.NodeTransformer):
+                def visit_Name(self, node):
+                    return ast.copy_location(ast.Name(id=kv, ctx=node.ctx), node) if node.id == cv else node
+
+            val = Ren().visit(copy.deepcopy(comp.value))
+            loop.target = ast.copy_location(ast.Name(id=kv, ctx=ast.Store()), loop.target)
+            loop.iter = comp.generators[0].iter
+            loop.body.insert(0, ast.copy_location(ast.Assign(targets=[ast.Name(id=vv, ctx=ast.Store())], value=val), loop))
+            owner = parents.get(id(defs[0]))
+            for fld in ("body", "orelse", "finalbody"):
+                b = getattr(owner, fld, None)
+                if isinstance(b, list) and defs[0] in b:
+                    b[b.index(defs[0])] = ast.copy_location(ast.Pass(), defs[0])
+            changed.append(f"loop over the items of the one-use comprehension {d} rewritten as a loop over its source")
+            reparent()
+        if changed:
+            ast.fix_missing_locations(fi.node)
+            for attr in ("_mdsa_single_defs", "_mdsa_objnames"):
+                if hasattr(fi.node, attr):
+                    delattr(fi.node, attr)
+            log.append(f"{fi.qual}: " + "; ".join(changed))
+    return log
+
+
 def apply(program) -> List[str]:
     known = load_known()
     if known is None:
@@ -1045,4 +1187,5 @@ def apply(program) -> List[str]:
         inl.run()
         inl.drop_fully_inlined()
     sr = _scalar_replacement(program, known) if any(k.startswith("@") for k in known) else []
-    return log + inl.log + sr
+    sm = _simplify_inlined(program, inl.touched) if inl.touched else []
+    return log + inl.log + sr + sm
